@@ -86,6 +86,26 @@ def extract_defaults(tree, rel: str, cls: str) -> Dict[str, List[Tuple[Any, ast.
     return out
 
 
+CLOBBERED: Dict[Tuple[str, str], Dict[str, str]] = {}
+
+
+def _sibling_written_keys(tree, rel: str) -> set:
+    """Keys that some check_conf of the same package stores into (an alias of) the shared class-level schema."""
+    import os
+
+    out = set()
+    pkg = os.path.dirname(rel)
+    for r in tree.py_files(pkg):
+        for q, fn in tree.funcs(r).items():
+            if not q.endswith(".check_conf"):
+                continue
+            al = {"self.schema", "cls.schema"} | {n for n, ds in Defs(fn).defs.items() for _, v, pos in ds if pos is None and canon(v) in ("self.schema", "cls.schema")}
+            for st in walk_no_nested(fn):
+                if isinstance(st, ast.Assign) and isinstance(st.targets[0], ast.Subscript) and canon(st.targets[0].value) in al and isinstance(st.targets[0].slice, ast.Constant):
+                    out.add(st.targets[0].slice.value)
+    return out
+
+
 def extract_schema(tree, rel: str, cls: str) -> Tuple[Dict[str, Tuple[ast.AST, bool]], str]:
     """key -> (checker expression, optional?) of the schema validated by the class's check_conf."""
     fn = tree.func(rel, f"{cls}.check_conf")
@@ -98,19 +118,7 @@ def extract_schema(tree, rel: str, cls: str) -> Tuple[Dict[str, Tuple[ast.AST, b
         raise AnalysisError(f"{cls}.check_conf: no `schema` found")
     first = sdefs[0][1]
 
-    def add_dict(node: ast.Dict):
-        for k, v in zip(node.keys, node.values):
-            if isinstance(k, ast.Constant):
-                schema[k.value] = (v, False)
-            elif isinstance(k, ast.Call) and (dotted(k.func) or "") == "OptionalKey" and isinstance(k.args[0], ast.Constant):
-                schema[k.args[0].value] = (v, True)
-            else:
-                raise AnalysisError(f"{cls}: schema key `{src(k)}` is not a constant")
-
-    if isinstance(first, ast.Dict):
-        add_dict(first)
-    elif canon(first) in ("self.schema", "cls.schema"):
-        # class-level dict of a base class, then overwritten keys
+    def class_level_literal() -> ast.Dict:
         cur = (rel, cls)
         node = None
         for _ in range(5):
@@ -127,7 +135,31 @@ def extract_schema(tree, rel: str, cls: str) -> Tuple[Dict[str, Tuple[ast.AST, b
             cur = nxt
         if not isinstance(node, ast.Dict):
             raise AnalysisError(f"{cls}: class-level schema is not a dict literal")
-        add_dict(node)
+        return node
+
+    def add_dict(node: ast.Dict):
+        for k, v in zip(node.keys, node.values):
+            if k is None and canon(v) in ("self.schema", "cls.schema"):
+                # {..., **self.schema}: the shared class-level dict is unpacked *over* the entries written so far;
+                # at run time it also holds whatever the sibling classes stored in it
+                stale = _sibling_written_keys(tree, rel)
+                for key in list(schema):
+                    if key in stale:
+                        CLOBBERED.setdefault((rel, cls), {})[key] = "set before `**self.schema`, which is unpacked over it and holds the entry last stored by a sibling class"
+                add_dict(class_level_literal())
+            elif isinstance(k, ast.Constant):
+                schema[k.value] = (v, False)
+            elif isinstance(k, ast.Call) and (dotted(k.func) or "") == "OptionalKey" and isinstance(k.args[0], ast.Constant):
+                schema[k.args[0].value] = (v, True)
+            else:
+                raise AnalysisError(f"{cls}: schema key `{src(k)}` is not a constant")
+
+    CLOBBERED.pop((rel, cls), None)
+    if isinstance(first, ast.Dict):
+        add_dict(first)
+    elif canon(first) in ("self.schema", "cls.schema"):
+        # class-level dict of a base class, then overwritten keys
+        add_dict(class_level_literal())
     else:
         raise AnalysisError(f"{cls}.check_conf: schema is neither a dict literal nor the class-level schema")
     for st in walk_no_nested(fn):
@@ -157,6 +189,8 @@ def rule_classes(ctx: Ctx) -> int:
         fn = tree.func(rel, f"{cls}.check_conf")
         # key sets
         skeys, wkeys = set(schema), set(ent["keys"])
+        for key, why in sorted(CLOBBERED.get((rel, cls), {}).items()):
+            ctx.ob("C05.SHARED-SCHEMA", rel, fn, f"{cls}: schema entry `{key}` is the class's own rule", False, detail=f"`{key}` is {why}: the outcome of the check depends on which measure was checked before in the same process", expected=f"schema['{key}'] assigned after the shared dict is taken")
         ctx.ob("C05.SCHEMA-KEYS", rel, fn, f"{cls}: schema keys {sorted(skeys)}", skeys == wkeys, expected=str(sorted(wkeys)), detail=f"parameters policed by the schema differ from the documented ones: extra {sorted(skeys - wkeys)}, missing {sorted(wkeys - skeys)} (an unknown key is rejected by json_checker, a missing entry makes a documented parameter illegal)")
         for k in sorted(set(defaults) - skeys):
             ctx.ob("C05.SCHEMA-KEYS", rel, defaults[k][0][1], f"{cls}: default for `{k}` has a schema entry", False, detail="a defaulted key that the schema does not know makes every configuration fail the check")
@@ -359,6 +393,8 @@ SPEC = PropSpec(
 
 MC = "pandora/matching_cost/matching_cost.py"
 MUTANTS = [
+    {"id": "census-own-rule-before-shared-unpack", "file": "pandora/matching_cost/census.py", "old": '        schema = self.schema\n        schema["matching_cost_method"] = And(str, lambda input: "census")\n        schema["window_size"] = And(int, lambda input: input in (3, 5))\n', "new": '        schema = {"window_size": And(int, lambda input: input in (3, 5)), **self.schema}\n        schema["matching_cost_method"] = And(str, lambda input: "census")\n'},
+    {"id": "eq-census-private-copy-then-own-rules", "kind": "equiv", "file": "pandora/matching_cost/census.py", "old": '        schema = self.schema\n        schema["matching_cost_method"] = And(str, lambda input: "census")\n        schema["window_size"] = And(int, lambda input: input in (3, 5))\n', "new": '        schema = {**self.schema, "window_size": And(int, lambda input: input in (3, 5))}\n        schema["matching_cost_method"] = And(str, lambda input: "census")\n'},
     {"id": "window-default-7", "file": MC, "old": "    _WINDOW_SIZE = 5\n", "new": "    _WINDOW_SIZE = 7\n"},
     {"id": "cbca-distance-ge-0", "file": "pandora/aggregation/cbca.py", "old": '"cbca_distance": And(int, lambda input: input > 0),', "new": '"cbca_distance": And(int, lambda input: input >= 0),'},
     {"id": "filter-size-parity-dropped", "file": "pandora/filter/median.py", "old": '"filter_size": And(int, lambda input: input >= 1 and input % 2 != 0),', "new": '"filter_size": And(int, lambda input: input >= 1),'},
